@@ -860,10 +860,15 @@ def build(tier):
             'typed value pools: for every feature list (any length, kinds, class counts -- every storage-width boundary --, dimensions) the real visit() (reader and writer overload) slices the pool whose type the real resize() recorded for the feature, inside the rows resize() gave that pool; two features never share rows of a pool; the mask has one row per feature and (samples+7)/8 bytes; no width rule is written in the spec (the two real dispatches are compared); datasource_storage_access*: dsrc_resize.loop_invariant_step.3/.4 = clause (c)+(a) at the observed features, step.5 = clause (b); datasource_storage_single*: the same clauses as named assertions for one-feature data sources',
             'pairwise product: the operator of pairwise_product_t::process equals (scalar_t)v1 * (scalar_t)v2 with IEEE semantics for all 10 x 10 storage-type instantiations; pairwise select_scalar / flatten (int32 x uint32): a cell is that product of the two stored sources of the sample behind the row when both are given, NaN otherwise, every other cell untouched, all reads in bounds',
             '[thorough tier] dataset_t::update() (real body, 5 loop contracts, for every generator list of up to 1000 generators / 1000 generated features, feature counts and column counts given by ghost prefix sums fbase / cbase): ESTABLISHES the bookkeeping invariant from any prior state: feature table has one row per generated feature and 5 columns, column table one row per flattened column (documented encodings: one-hot C-1, multi-label C, scalar / structured size(dims)) and 3 columns, generator table one row per generator; every write of the three tables is inside its table and every row is written; row f of the feature table names a generator g in [0, generators) that owns f (fbase[g] <= f < fbase[g+1]), the local index f - fbase[g] and the dimensions of the descriptor (mclass: (classes,1,1), scalar / struct: dims()); row c of the column table names the feature k < features() that owns c (cbase[k] <= c < cbase[k+1]: the column ranges of the features are consecutive, disjoint and tile [0, columns()), column2feature answers with the owner), the local column c - cbase[k] and a generator that owns k; row g of the generator table is the width of the column range [cbase[fbase[g]], cbase[fbase[g+1]]) that dataset_t::flatten hands to generator g; generator->feature(i) is only called with a valid local index',
+            'dataset_t::drop(f) / shuffle(f) / shuffled(f, samples) (real bodies, byfeature by its proved contract, m_feature_mapping as a real bounds-checked array whose every read by the wrapper is an access obligation 0 <= f < rows and is counted): an index outside [0, features()) throws, the generator is not called and NO cell of the mapping table is read on that path (dataset_<op>.postcondition.1-3, nv_t2i_at.assertion.1); a valid index does not throw and is forwarded exactly once, to the right operation, of the generator the table names (column 0) with the generator-local index (column 1) (postcondition.4-5); shuffled hands back the generator\'s answer for the caller\'s sample list; dataset_t::undrop() / unshuffle() (loop contract): every generator of the list (ghost slot) gets exactly one call of the right operation, no table cell is read, nothing throws',
+            'generator side of the column bookkeeping (quick tier): for the four identity generators (sclass / mclass / scalar / struct) the real process(i) reports exactly NV_COLUMNS(feature(i)) flatten columns, with the real feature(), mapped_original / mapped_classes / mapped_dims and every read of the generator\'s mapping table in bounds; NV_COLUMNS is ONE macro (specs/C08/columns.h) shared with the contract of dataset_t::update() (thorough tier), so a generator whose width disagrees with the bookkeeping fails process_<kind>/main.assertion.3; feature(i) is the descriptor of the original feature the mapping names (main.assertion.2)',
             'drop / shuffle protocol: transition contracts of drop / shuffle / undrop / unshuffle over every reachable state, observed through the real should_drop / shuffled readers (hence for every call sequence, by induction); generator_t::select x4: a dropped feature is filled with NaN / -1 and its values are not computed, otherwise do_select runs on exactly these arguments'],
         'not_decided': [
             'agreement of the per-feature and flattened views for the other 11 feature kinds / storage widths, product and gradient generators, targets (the instantiations that exist were not enumerated with astload.instantiations in this round)',
             'the invariant proved for dataset_t::update() (thorough tier) is not yet wired into its callers: byfeature / select / flatten still ASSUME it at the queried row (the assumed instance -- 5 columns, 0 <= mapping(f, 0) < generators -- is a consequence of clauses 1 and 3 of the update contract, but no refinement target checks that implication); the loop of dataset_t::flatten that adds up the generator widths is not under contract',
+            'column width of the other generators (pairwise_product_t::process: colsize 1 against make_scalar_feature; elemwise_gradient_t::process: rows * cols against make_struct_feature; the sclass / mclass / struct pairwise kinds): not under contract; that elemwise_generator_t::flatten advances its column by exactly the colsize of process(i) is proved for the sclass / 8-bit instantiation only (flatten_sclass_u8)',
+            'the fit() side of the identity generators: detail::select (include/nano/generator/select.h, nested generic lambdas) builds the generator\'s mapping table; its result (row k = original index, classes(), dims() of a data-source feature of the generator\'s kind) is ASSUMED at the queried row by the process_* targets',
+            'dataset_t::drop / shuffle / shuffled: byfeature(feature) is hoisted in front of the statement that uses it (C++17: the postfix expression of a call is sequenced before its arguments); a source that passes byfeature(..) as one of SEVERAL arguments of a call (unspecified order) is refused (exit 2), not decided',
             'the thread-parallel dataset_t::flatten / targets bodies; generator_t::shuffled(feature, samples) (the loop that applies the permutation) and flatten_dropped',
             'the reshape arithmetic inside datasource_t::visit (only pool and row range are observed) and the value conversion in datasource_t::set / feature_storage_t',
             'pairwise loops for the other 99 storage-type pairs and the sclass / mclass / struct pairwise generators (same template text, other instantiations)',
@@ -884,6 +889,8 @@ def build(tier):
             'the permutation m_shuffled_all_samples is empty or has samples() entries each in [0, samples()) (generator_t::shuffle: std::shuffle of arange)',
             'flatten target: the listed samples are valid indices (what check(samples) must establish) -- every list read returns some index in [0, N); the flatten buffer is tracked at one ghost cell (the function never reads it); Eigen segment / setConstant / coefficient access have their documented meaning with their index preconditions checked at each use; dataset_t::flatten maps the buffer to samples.size() rows and hands the generator a column range inside it; generator_t::NaN is a NaN',
             'select targets: dataset_t::feature(i) throws for an invalid i (as proved for byfeature) and otherwise returns an arbitrary descriptor; handle_<kind> throws unless the descriptor has that kind; resize_and_map returns a view with the requested leading dimension (further dimensions not modelled); generator_t::select may throw',
+            'wrapper targets (drop / shuffle / shuffled / undrop / unshuffle): dataset_byfeature by its contract (proved by the dataset_byfeature target) under the same instance of the update() invariant at the queried row; generator_t::drop / shuffle / shuffled / undrop / unshuffle do not throw and are recorded by ghost variables (their transitions: gen_* targets); range-for / iterator loop over m_generators visits the slots 0 .. size-1 in order; at most 10^5 generators',
+            'process targets: the generator is fitted (generator_t::datasource() returns the data source, does not throw); base_elemwise_generator_t::fit() invariant at the queried row i (from select_<kind> / detail::select, not extracted): mapping(i, 0) is a valid feature index of the data source, mapping(i, 1) = its classes(), mapping(i, 2..4) = its dims(), and the feature has the generator\'s kind (is_sclass / is_mclass / is_scalar: size(dims) == 1 / is_struct: size(dims) > 1); 0 <= classes() <= 2^40; nano::size(dims) is an uninterpreted function of the three extents (congruence only; C16 proves nano::size), make_dims(a, b, c) is the triple; datasource_t::feature(i) is a pure function observed at one ghost index; the generator\'s mapping table is observed at one ghost row (index preconditions checked at every use); std::max / std::min on tensor_size_t have their exact meaning; the operator half of the tuple returned by process() is not looked at here',
             'exceptions are early returns with nv_thrown set; stubs called with a may-throw argument do nothing once nv_thrown is set',
             'sizes are bounded (2^40 samples for the bit mask, 10^6 list entries / samples elsewhere, 10^5 features / generators) only to keep byte counts inside size_t and CBMC objects addressable'],
         'trusted': [],
